@@ -14,9 +14,7 @@ Nest(nodes, ts, i) == LET n == nodes[i] IN
   [op |-> n.op, w |-> ts[i].w, k |-> [j \in 1..Len(n.a) |-> Nest(nodes, ts, n.a[j])],
    hi |-> n.hi, lo |-> n.lo, by |-> n.by, name |-> n.name, bits |-> n.bits]
 \* nodes reachable from i
-RECURSIVE Below(_, _)
-Below(nodes, i) == {i} \cup UNION { Below(nodes, nodes[i].a[j]) : j \in 1..Len(nodes[i].a) }
-InScope(r, ts) == \A i \in Below(r.nodes, r.root) \cup Below(r.nodes, r.outs[1].roots[1]) :
+InScope(r, ts) == \A i \in ReachFrom(r.nodes, {r.root, r.outs[1].roots[1]}) :
                      ts[i] # BAD /\ ts[i].k = "bv" /\ r.nodes[i].op \notin {"read", "arreq"}
 Judge(r) ==
   LET ts == TypesAll(r.nodes) IN
